@@ -251,12 +251,45 @@ struct S {
     tier: Tier,
     maxk: usize,
     offsets: Vec<u64>,
+    /// extra units: one-line blocks built from every token sequence of bounded length
+    gram_len: usize,
+}
+/// Line tokens: a line is any sequence of these (spaces before and after tabs, runs of
+/// spaces, wide characters at any column).
+const LINE_TOKENS: [&str; 6] = ["a", "bc", " ", "  ", "\t", "\u{4e2d}"];
+fn gram_units(len: usize) -> u64 {
+    (1..=len).map(|k| (LINE_TOKENS.len() as u64).pow(k as u32)).sum()
+}
+fn gram_line(mut code: u64, maxlen: usize) -> String {
+    for k in 1..=maxlen {
+        let n = (LINE_TOKENS.len() as u64).pow(k as u32);
+        if code < n {
+            return decode(code, &vec![LINE_TOKENS.len(); k]).iter().map(|&i| LINE_TOKENS[i]).collect();
+        }
+        code -= n;
+    }
+    unreachable!()
 }
 impl Scope for S {
     fn units(&self) -> u64 {
-        *self.offsets.last().unwrap()
+        *self.offsets.last().unwrap() + gram_units(self.gram_len)
     }
     fn run_unit(&self, unit: u64, cx: &mut Cx) {
+        if unit >= *self.offsets.last().unwrap() {
+            let line = gram_line(unit - *self.offsets.last().unwrap(), self.gram_len);
+            for second in [None, Some("xy")] {
+                let mut lines = vec![line.clone()];
+                lines.extend(second.map(|x| x.to_string()));
+                for ctx in 0..CTXS.len() {
+                    for variant in [0usize, 5] {
+                        for width in 1..=self.tier.pick(20, 40) {
+                            check(&Case { lines: lines.clone(), ctx, variant, width }, cx);
+                        }
+                    }
+                }
+            }
+            return;
+        }
         let k = (1..=self.maxk).find(|&k| unit < self.offsets[k]).unwrap();
         let code = unit - self.offsets[k - 1];
         let idx = decode(code, &vec![ATOMS.len(); k]);
@@ -273,7 +306,7 @@ impl Scope for S {
     }
     fn info(&self) -> Info {
         Info {
-            rule: "every pre block of up to maxk lines over 14 line shapes (empty, words, leading/trailing/interior spaces, tabs at start/middle/end and across column 8, wide characters, a full-width word, spaces only) x {top level, list item, quote} x {plain text, first word in <b>, <br> / newline+<br> / <br>+newline as separators} x every width; non-trivial = some source line does not fit".into(),
+            rule: "every pre block of up to maxk lines over 14 line shapes (empty, words, leading/trailing/interior spaces, tabs at start/middle/end and across column 8, wide characters, a full-width word, spaces only) x {top level, list item, quote} x {plain text, first word in <b>, <br> / newline+<br> / <br>+newline as separators} x every width; plus every line that is a sequence of <= 4 (thorough: 5) tokens from {a, bc, one space, two spaces, tab, wide character}, alone and followed by a second line; non-trivial = some source line does not fit".into(),
             bounds: json!({"line_shapes": ATOMS, "max_lines": self.maxk, "contexts": ["top", "li", "quote"], "variants": VARIANTS, "widths": self.tier.pick("1..=18", "1..=60 (<=2 lines), 1..=30 (3 lines), 1..=18 (4 lines)")}),
             assumptions: vec!["rich decorator; tab stops every 8 columns counted from the start of the block's own width".into()],
         }
@@ -289,7 +322,7 @@ impl Prop for P {
         for k in 1..=maxk {
             offsets.push(offsets[k - 1] + (ATOMS.len() as u64).pow(k as u32));
         }
-        Box::new(S { tier, maxk, offsets })
+        Box::new(S { tier, maxk, offsets, gram_len: tier.pick(4, 5) })
     }
     fn replay(&self, case: &Value, cx: &mut Cx) {
         let c: Case = serde_json::from_value(case.clone()).expect("C12 case");
